@@ -1194,7 +1194,22 @@ def add_and_update_gp(
     if options["specify_target_noise"] and sd_new is not None:
         gp.s2 = np.concatenate((gp.s2, np.atleast_2d(sd_new) ** 2))
 
-    gp.update(compute_posterior=True)
+    hyp_retry = gp.get_hyperparameters(as_array=True)
+    try:
+        gp.update(compute_posterior=True)
+    except np.linalg.LinAlgError:
+        # The posterior is not computable with the new point: retry with
+        # more observation noise (as the local fit's fallback does)
+        for _ in range(10):
+            dic_retry = gp.hyperparameters_to_dict(hyp_retry)
+            for dic in dic_retry:
+                dic["noise_log_scale"] = dic["noise_log_scale"] + 1.0
+            hyp_retry = gp.hyperparameters_from_dict(dic_retry)
+            try:
+                gp.set_hyperparameters(hyp_retry)
+                break
+            except np.linalg.LinAlgError:
+                continue
 
     # Missing port: intmean part
     # TODO how is handled the user defined noise
